@@ -83,6 +83,13 @@ class VisitorModel:
         for st in vm.fn.body:
             if isinstance(st, ast.If) and _is_empty_test(st.test, ch) and st.body and isinstance(st.body[-1], ast.Return):
                 guard_line = st.lineno
+        # names read inside nested functions / lambdas are uses of the enclosing method's locals (closures)
+        for inner in ast.walk(vm.fn):
+            if inner is not vm.fn and isinstance(inner, (ast.FunctionDef, ast.Lambda)):
+                own = {a.arg for a in inner.args.args + inner.args.kwonlyargs}
+                for x in ast.walk(inner):
+                    if isinstance(x, ast.Name) and isinstance(x.ctx, ast.Load) and x.id not in own:
+                        vm.used_names.add(x.id)
         for n in walk_no_nested(vm.fn):
             if isinstance(n, ast.Name) and isinstance(n.ctx, ast.Load):
                 vm.used_names.add(n.id)
